@@ -152,7 +152,7 @@ def norm(
         abs_ = absolute(x, constant=constant)
         if not issubclass(abs_.dtype.type, np.inexact):
             # numpy.linalg.norm computes in floating point
-            abs_ = abs_.astype(np.float64)
+            abs_ = abs_.astype(np.float64, constant=abs_.constant)
         out = op(abs_, axis=axis, keepdims=keepdims)
 
         in_ndim = abs_.ndim
